@@ -216,6 +216,7 @@ func runC15(r *core.Run) {
 	c15Attachment(r)
 	c15ViewGraph(r)
 	c15AttachWidths(r)
+	c15Unmasked(r)
 }
 
 // c15Sequences: BFS over (mask, softness) states with predicate calls and Harden/Soften.
